@@ -76,7 +76,8 @@ type Step struct {
 	// "snclose" the client's transport is closed (the gateway's reads see EOF);
 	// "snfail" from now on the gateway's writes to the client fail (unreachable);
 	// "mqstall"/"mqunstall" the broker stops/resumes reading (writes to it block);
-	// "auto" replaces the reactive behaviour.
+	// "mq-at-snwrite"/"sn-at-mqwrite" the other peer's packet arrives inside the gateway's next write;
+	// "eager"/"eagerping" the peers react from the write hooks; "auto" replaces the reactive behaviour.
 	K      string       `json:"k"`
 	SN     *snref.Pkt   `json:"sn,omitempty"`
 	MQ     *mqttref.Pkt `json:"mq,omitempty"`
@@ -650,6 +651,35 @@ func (s *Session) Apply(i int, st Step) {
 		// D > 0: it still takes D more bytes (the rest of its socket buffer)
 		s.ev(Event{Dir: EV, What: fmt.Sprintf("MQSTALL room=%d", st.D)})
 		s.MQ.SetStalledAfter(true, int(st.D))
+	case "mq-at-snwrite", "sn-at-mqwrite":
+		// One shot: the next time the gateway writes to the client (mq-at-snwrite) / to the broker
+		// (sn-at-mqwrite), the other peer's packet st.MQ / st.SN arrives while the writing goroutine
+		// is still inside that write (it then yields D times): the gateway's two loops meet there.
+		link := s.SN
+		if st.K == "sn-at-mqwrite" {
+			link = s.MQ
+		}
+		prev := link.OnWrite
+		var once sync.Once
+		yield := int(st.D)
+		mq, sn := st.MQ, st.SN
+		link.OnWrite = func(b []byte) {
+			if prev != nil {
+				prev(b)
+			}
+			once.Do(func() {
+				if mq != nil {
+					s.BrokerSend(*mq, false)
+				}
+				if sn != nil {
+					s.ClientSend(*sn, false)
+				}
+				for i := 0; i < yield; i++ {
+					runtime.Gosched()
+				}
+			})
+		}
+		return
 	case "eager":
 		// From now on both scripted peers react to what the gateway writes the moment it is written -
 		// from the links' write hooks, while the writing goroutine is still inside the write (it then
